@@ -68,7 +68,8 @@ def jEvent (e : Event) : Json :=
 /-- `c16.run {kind, quiet, verbosity, columns, max, min_ticks, max_ticks|null, redraw|null,
 bar_width|null, bar_char|null, empty_char|null, progress_char|null, format|null, message|null,
 t0, ops:[{op, arg, t}]}` (operations and mid-run setters, see `parseCall`) -> per call the stream writes, the getters and the exception class; `hyp`: the
-deciders of the hypotheses of the theorems on this configuration and history.
+deciders of the hypotheses of the theorems on this configuration and history; `screen` (ANSI, not quiet; else null):
+the rows of the terminal after the history, whether every frame fits its format (`framesFitB`), the lines of the latest write.
 `c16.roundq {a, b}` -> the correctly rounded quotient (self-test of the float model). -/
 def handle (m : String) (j : Json) : Option (R Json) :=
   match m with
@@ -103,7 +104,13 @@ def handle (m : String) (j : Json) : Option (R Json) :=
         | some msg => (Call.op (Op.setMessage msg), t0) :: calls
       -- `runC`: the history may contain setters; without any it is `run` (Props.C16.run_is_runC)
       let evs := runC c s0 calls
-      return Json.mkObj [("events", jList jCEvent evs),
+      -- the terminal with rows after the whole history (`screenC`, started on an empty terminal as the harness's
+      -- emulator is), the decider of the hypothesis of Props.C16.ansi_screen_final_dec and the lines it promises
+      let screen : Json := if kind == .ansi && !quiet then
+          Json.mkObj [("rows", jStrs (screenC (Scr.fresh 0 []) evs).rows), ("fits", .bool (framesFitB evs)),
+                      ("shown", jOpt jStrs (lastLinesFrom none evs))]
+        else .null
+      return Json.mkObj [("events", jList jCEvent evs), ("screen", screen),
         ("hyp", Json.mkObj [("single", .bool (singleCharsB c)), ("bar_width_ok", .bool (barWidthOkB c)),
                             ("clean_cfg", .bool (cleanCfgB c)), ("clean_ops", .bool (cleanCallsB calls')),
                             ("no_err", .bool (noErrCB evs))])]
